@@ -25,10 +25,14 @@ def simRaw {α : Type} [DecidableEq α] (m : Measure) (l r : List α) : PyV :=
   if l.length = 0 || r.length = 0 then .int 0 else
   simFormula m (interCount l r) (setLen l) (setLen r)
 
+/-- the `_sim_score` cell holding a similarity value: numbers as such, `inf` and bools in the harness's cell encoding
+    (`f:<bits>`, `bool:True` — a user's similarity function may return `a == b`); anything else is not a score the
+    package can compare with a threshold (Python raises) and is outside the model -/
 def scoreCell : PyV → Cell
   | .int i => .int i
   | .float q => .flt q
-  | .inf => .other "inf"
+  | .inf => .other "f:7ff0000000000000"
+  | .bool b => .other (if b then "bool:True" else "bool:False")
   | _ => .missing
 
 /-- per-chunk configuration of a join -/
